@@ -272,6 +272,37 @@ def uploadT (verb : String) (path : Bytes) : MT Replies :=
       finishTransferT rs
     else pure rs) cleanupT
 
+/-! ### transfers with a callback (cancellation) on a TLS session: ABOR, then the data connection is closed without the
+    TCP shutdown (`disconnect(false)` still closes the TLS layer first) -/
+
+def finishTransferCbT (rs : Replies) : MT Replies := do
+  let cancelled ← lift poll
+  if cancelled then
+    let rs ← lift (processAbort rs)
+    dataDisconnectT false
+    pure rs
+  else finishTransferT rs
+
+def downloadCbT (path : Bytes) : MT Replies :=
+  scopedT (do
+    let c ← lift (mkCmd "RETR" (some path))
+    let (ready, rs) ← createDataConnectionT c Replies.empty
+    if ready then
+      let w ← getT
+      lift (dataRecv true w.base.ttype)
+      finishTransferCbT rs
+    else pure rs) cleanupT
+
+def uploadCbT (verb : String) (path : Bytes) : MT Replies :=
+  scopedT (do
+    let c ← lift (mkCmd verb (some path))
+    let (ready, rs) ← createDataConnectionT c Replies.empty
+    if ready then
+      let w ← getT
+      lift (dataSend true w.base.ttype)
+      finishTransferCbT rs
+    else pure rs) cleanupT
+
 def fileListT (path : Option Bytes) (names : Bool) : MT (Replies × Bytes) :=
   scopedT (do
     let c ← lift (mkCmd (if names then "NLST" else "LIST") path)
